@@ -11,11 +11,11 @@ ID = 'C08'
 ENGINE = 'E1 full product'
 RULE = ("full product dtype x width {scalar,1,3} x cast x user DIMENSION {unset, equal, different} x user "
         "ELEMENT-LIMIT {unset, equal, larger, more dimensions, smaller} x topology {plain, channel shared by two frames, "
-        "extra channel outside frames, one dataset under two channel names in two frames / in one frame with different casts, three channels} x source {inline, dict, structured array, HDF5} x route of the user values {keywords at creation, public setters afterwards}; "
+        "extra channel outside frames, one dataset under two channel names in two frames / in one frame with different casts, three channels, two equally named channels in one frame (must be refused)} x source {inline, dict, structured array, HDF5} x route of the user values {keywords at creation, public setters afterwards}; "
         "inconsistent user values must raise; otherwise descriptors are read from the file and must slice every "
         "record; non-trivial = file written and descriptors compared")
 ASSUMPTIONS = ["strict reader mc/rp66.py", "reference model mc/model.py"]
-TOPO = ['plain', 'shared', 'extra', 'alias', 'alias-same-frame', 'three']
+TOPO = ['plain', 'shared', 'extra', 'alias', 'alias-same-frame', 'three', 'dup-name']
 
 
 def shards(tier):
@@ -32,6 +32,8 @@ def cases(shard, tier):
     for width, cast, dim, el, src in itertools.product(widths, CASTS[d], ['unset', 'equal', 'different'],
                                                        ['unset', 'equal', 'larger', 'moredims', 'smaller'],
                                                        ['inline', 'dict', 'struct', 'h5']):
+        if shard['topo'] == 'dup-name' and (dim != 'unset' or el != 'unset'):
+            continue
         if src in ('struct', 'h5') and shard['topo'] in ('alias', 'alias-same-frame'):
             continue        # aliasing needs a data set name that differs from the channel name: dict/inline only
         yield {'dtype': d, 'topo': shard['topo'], 'width': width, 'cast': cast, 'dim': dim, 'el': el, 'src': src}
@@ -116,6 +118,14 @@ def make_spec(c):
         ops.append({'op': 'dsname', 'h': 'C1', 'value': 'CH-T'})
         chan('C2', 'IDX', idx)
         ops.append(S.op_add('frame', 'F0', 'FR0', channels=[{'$ref': 'C2'}, {'$ref': 'C0'}, {'$ref': 'C1'}]))
+    elif t == 'dup-name':
+        # a second channel of the same name in the same frame: the rows are addressed by channel name, so the frame
+        # cannot be laid out; it must be refused (a file whose FRAME lists more channels than its records hold is wrong)
+        ops.append(S.op_add('channel', 'C1', 'CH-T', **({'data': idx} if c['src'] == 'inline' else {})))
+        if c['src'] != 'inline':
+            data['CH-T__1'] = idx
+        ops_by_h['C1'] = 'CH-T__1'
+        ops.append(S.op_add('frame', 'F0', 'FR0', channels=[{'$ref': 'C0'}, {'$ref': 'C1'}]))
     elif t == 'three':
         chan('C1', 'IDX', idx)
         chan('C2', 'TAIL', S.arr_spec('uint16', [rows, 2], [1, 2, 3, 4]))
@@ -169,14 +179,14 @@ def _with_earlier_write(c, sp):
 
 
 def run_case(c):
-    must_raise = c['dim'] == 'different' or (c['el'] == 'smaller' and c['width'] not in ('s', 1))
+    must_raise = c['dim'] == 'different' or (c['el'] == 'smaller' and c['width'] not in ('s', 1)) or c['topo'] == 'dup-name'
     sp = make_spec(c)
     res = _with_earlier_write(c, sp) if c.get('earlier') else S.run_spec(sp)
     viol = []
     raised = res['failed_at'] is not None or res['write'] != 'ok'
     if must_raise:
         if not raised:
-            viol.append((f"C08:accepted-inconsistent:{'dimension' if c['dim'] == 'different' else 'element-limit'}",
+            viol.append((f"C08:accepted-inconsistent:{'same-named-channels-in-frame' if c['topo'] == 'dup-name' else 'dimension' if c['dim'] == 'different' else 'element-limit'}",
                          f"user values inconsistent with the data were written | {c}"))
         return Outcome('rejected' if raised else 'accepted-inconsistent', viol, True, digest=str(raised))
     if raised:
